@@ -117,3 +117,131 @@ class check_sortable:
             ),
         ],
     }
+
+
+# ----------------------------------------------------------------------------- the sort
+# What a caller relies on when _sort_dependencies RETURNS (C02: "each component seeing
+# the finished values of everything it names"):
+#   * the result has one entry per component, the entries are pairwise distinct and each
+#     is the name of a component  (so, names being distinct, it is a permutation),
+#   * TOPOLOGICAL: everything the component at position a requires is available before
+#     position a: initially available, or provided by a component at an earlier position,
+#   * `available` ends up as the initial set plus everything the components provide,
+#   * a missing dependency is reported (MissingDependenciesError) exactly when the
+#     completeness check says so, with `available` untouched,
+#   * the loops terminate (variants): the main loop within len(elements)**2 + 1 rounds.
+# NOT proved: that CircularDependencyError is raised only for cyclic graphs (adequacy of
+# the n**2 cap and of the `last_name` shortcut) - decided by the bounded part.
+
+
+def Named(els, n):
+    return as_type(named(els, n), "Dependency")
+
+
+def avail_before(av0, els, order, a, x):
+    # x is available before position a of `order`
+    return select(av0, x) or exists(
+        lambda m: 0 <= m and m < a and x in Named(els, order[m]).provided, "int"
+    )
+
+
+def is_component(els, d):
+    return exists(lambda j: 0 <= j and j < len(els) and els[j] is d, "int")
+
+
+def sorted_prefix(av0, els, order):
+    # `order` is duplicate free, names components only, and is topologically valid
+    return (
+        forall(lambda a, b: implies(0 <= a and a < b and b < len(order), order[a] != order[b]), "int", "int")
+        and forall(
+            lambda a: implies(
+                0 <= a and a < len(order),
+                is_component(els, Named(els, order[a])) and Named(els, order[a]).name == order[a],
+            ),
+            "int",
+        )
+        and forall(
+            lambda a, x: implies(
+                0 <= a and a < len(order) and x in Named(els, order[a]).required,
+                avail_before(av0, els, order, a, x),
+            ),
+            "int",
+            "val",
+        )
+    )
+
+
+def waiting_ok(els, order, q):
+    # the queue holds components, pairwise distinct by name and distinct from those already placed
+    return (
+        forall(lambda a: implies(0 <= a and a < len(q), is_component(els, q[a])), "int")
+        and forall(lambda a, b: implies(0 <= a and a < b and b < len(q), q[a].name != q[b].name), "int", "int")
+        and forall(
+            lambda a, b: implies(0 <= a and a < len(order) and 0 <= b and b < len(q), order[a] != q[b].name),
+            "int",
+            "int",
+        )
+    )
+
+
+@contract("mxlpy.model:_sort_dependencies")
+class sort_dependencies:
+    requires = lambda available, elements: elements_ok(elements) and names_distinct(elements)
+    raises = {
+        MissingDependenciesError: lambda available, elements: exists(
+            lambda j: 0 <= j and j < len(elements) and not solvable(available, elements, j), "int"
+        )
+    }
+    may_raise = (CircularDependencyError,)
+    ensures = lambda available, elements, result: [
+        len(result) == len(elements),
+        sorted_prefix(old(dom(available)), elements, result),
+        forall(
+            lambda x: iff(x in available, avail_before(old(dom(available)), elements, result, len(result), x)),
+            "val",
+        ),
+        unchanged(elements),
+        fresh(result),
+    ]
+    modifies = lambda available, elements: [available]
+    loops = {
+        1: lambda available, elements, queue, order: [
+            elems(queue) == take(elems(elements), _i),
+            len(order) == 0,
+            dom(available) == old(dom(available)),
+            unchanged(elements),
+            fresh(queue),
+            fresh(order),
+        ],
+        2: lambda available, elements, queue, order, i, max_iterations: [
+            len(order) + len(elems(queue)) == len(elements),
+            sorted_prefix(old(dom(available)), elements, order),
+            waiting_ok(elements, order, elems(queue)),
+            forall(
+                lambda x: iff(x in available, avail_before(old(dom(available)), elements, order, len(order), x)),
+                "val",
+            ),
+            unchanged(elements),
+            fresh(queue),
+            fresh(order),
+            not (queue is order),
+            i >= 0,
+        ],
+        3: lambda available, elements, queue, unsorted: [
+            fresh(queue),
+            fresh(unsorted),
+            forall(lambda a: implies(0 <= a and a < len(elems(queue)), is_component(elements, elems(queue)[a])), "int"),
+            forall(
+                lambda a: implies(
+                    0 <= a and a < len(unsorted),
+                    exists(lambda j: 0 <= j and j < len(elements) and elements[j].name == unsorted[a], "int"),
+                ),
+                "int",
+            ),
+            unchanged(elements),
+        ],
+    }
+    variants = {
+        2: lambda i, max_iterations: max_iterations + 1 - i,
+        3: lambda queue: len(elems(queue)),
+    }
